@@ -273,7 +273,8 @@ def id_filters(ck, rule_filter, rule_order):
     ck.floor(f"{rule_filter} reader calls in Program.__readMaps", n, 2)
     # public entry points hand the ids on to the private reader
     cr = p.find_class("CmapReader")
-    read = cr.methods.get(_m("__read", "CmapReader"))
+    from ..rules.common import cmap_reader_methods
+    read = cmap_reader_methods(ck)[0]
     if read is None:
         raise AnalysisError(f"{cr.where}: CmapReader.__read not found")
     for name in ("readReferences", "readQueries"):
@@ -335,13 +336,12 @@ def id_filters(ck, rule_filter, rule_order):
                      "when no ids are given)", found="no path on which `moleculeIds` is tested",
                      required="if moleculeIds: maps = maps[maps[col].isin(moleculeIds)]")
     # the id read back from a group uses the same column; positions are sorted
-    parse = cr.methods.get(_m("__parseCmapRowsGroup", "CmapReader"))
+    parse = cmap_reader_methods(ck)[1]
     if parse is None:
         raise AnalysisError(f"{cr.where}: per-molecule parser not found")
-    for pa in explore(ck, parse):
-        if pa.outcome != "return":
-            continue
-        news = [x for x in T.subterms(pa.value) if x[0] == "new" and x[1].endswith(":OpticalMap")]
+    from ..rules.common import merged_return
+    for merged_v, pa in [merged_return(ck, parse)]:
+        news = [x for x in T.subterms(merged_v) if x[0] == "new" and x[1].endswith(":OpticalMap")]
         if not news:
             raise AnalysisError(f"{where(parse, pa.node)}: OpticalMap construction not found in the per-molecule parser")
         a = dict(news[0][2])
